@@ -281,6 +281,27 @@ func run(c *vf.Ctx) {
 			xm.Run()
 			xm.Report(n + "/merged/")
 		}
+		// a valid block may present the parents it created itself (ephemeral parents) with ANY Merkle proof: the update,
+		// the refreshed proofs and the reported tree nodes must not depend on it
+		m.OnTransition = func(x *chain.Explorer, prev, w *chain.World, path []string) {
+			a := w.Hist[len(w.Hist)-1]
+			for _, n := range []int{1, 3} {
+				nb, ok := chain.JunkEphemeralProofs(prev.CS, a.B, n)
+				if !ok {
+					return
+				}
+				wv := prev.Clone()
+				err, p := wv.ApplyFrom(prev, nb, a.BS)
+				switch {
+				case p != nil:
+					x.Violate("junk-ephemeral-proof|"+p.Sig, fmt.Sprintf("the same block with %d arbitrary hashes as Merkle proof of its ephemeral parents (still valid): %s", n, p.Desc), append(append([]string(nil), path...), fmt.Sprintf("variant:junk-ephemeral-proof(%d)", n)))
+				case err != nil:
+					c.Count("junk_ephemeral_variant_rejected", 1)
+				default:
+					c.Count("junk_ephemeral_variant_applied", 1)
+				}
+			}
+		}
 		x := chain.NewExplorer(c, m, "C05")
 		x.Run()
 		x.Report(n + "/")
